@@ -29,7 +29,7 @@ STATE_MEASURE = "distinct (protocol state [idle / waiting(n labels)], move kind,
 WHITE_BOX = []
 STUBS = ["classifier: deterministic threshold rule on feature a (sklearn-cloneable; fit learns the threshold)",
          "margin function: |a - threshold| <= margin", "sklearn KFold wrapped by a recording subclass (real splits)"]
-MOVES = ["update", "update2", "label", "label_renamed", "label_missing", "label_extra", "label2"]
+MOVES = ["update", "update2", "label", "label_perm", "label_renamed", "label_missing", "label_extra", "label2"]
 
 
 class Stub(ClassifierMixin, BaseEstimator):
@@ -133,7 +133,8 @@ def gen(rng, scenario, tier):
         elif phase == "source":
             kind = "update" if c < 0.86 else rng.choice(MOVES[1:])
         else:
-            kind = "label" if c < 0.8 else rng.choice(["update", "update2", "label_renamed", "label_missing", "label_extra", "label2"])
+            # (label_perm: the same columns in another order - legal, the refusal rule is about the SET of columns)
+            kind = rng.choice(["label", "label", "label_perm"]) if c < 0.8 else rng.choice(["update", "update2", "label_renamed", "label_missing", "label_extra", "label2"])
         n_rows = 2 if kind.endswith("2") else 1
         ev.append([kind, [_row(rng, shift, flip) for _ in range(n_rows)]])
     return {"cfg": cfg, "ref": ref, "events": ev}
@@ -188,7 +189,9 @@ class Harness:
 def _frame(rows, kind="ok"):
     df = pd.DataFrame(rows, columns=["a", "b", "y"])
     df["y"] = df["y"].astype(int)
-    if kind == "label_renamed":
+    if kind == "label_perm":
+        df = df[["y", "b", "a"]]
+    elif kind == "label_renamed":
         df = df.rename(columns={"b": "zz"})
     elif kind == "label_missing":
         df = df[["a", "y"]]
@@ -237,7 +240,7 @@ def run(case, ctx, lifecycle=False):
                 call = lambda: det.update(X)  # noqa: E731
             else:
                 lab = _frame(rows, kind)
-                legal = waiting and kind == "label"
+                legal = waiting and kind in ("label", "label_perm")
                 call = lambda: det.give_oracle_label(lab)  # noqa: E731
             try:
                 call()
